@@ -33,6 +33,11 @@ def run(chk):
         if rng.random() < 0.4:
             mv = rng.choice(sorted(d["variants"]))
         cases.append({"desc": d, "main_variant": mv})
+    # how many generated trees fall under the hypotheses of the two flat-variant theorems (childless top-level variants, none of type
+    # 'addon', no comma in a UID) - counted here from the descriptions; the other C04 theorems have no such hypothesis
+    flat_n = sum(1 for c in cases if all(not v["children"] and v["type"] != "addon" and "," not in v["uid"] for v in c["desc"]["variants"].values()))
+    chk.obligation("theorem-applicability:C04_flat_variants", flat_n > 0, "%d of %d generated trees" % (flat_n, len(cases)))
+    chk.record_suite("docs_treeinfo:flat_variant_theorems_applicability", {"trees": len(cases), "under_the_theorems": flat_n})
     ir = core.ImplRunner("docs_treeinfo", fn="impl_roundtrip", per_case_timeout=10.0)
     try:
         ires = ir.run(cases)
